@@ -467,6 +467,8 @@ def step (which : Prop3) (st : St) (opLine impl : String) : St × StepOut :=
       (m, fails ++ f)) (mons, fails)
     let pfx := match which with | .c01 => "c01" | .c03 => "c03" | .c04 => "c04" | .residue => "residue" | .c02 => "c02"
     let fails := if bad then fails ++ [pfx ++ ".unparsable"] else fails
+    -- the model must have routed every effect of this step (never drop one silently)
+    let fails := if st.w.stepDone op then fails else fails ++ [pfx ++ ".model-fuel-exhausted"]
     -- residue oracle, driver-level clauses about the registry: a name that the implementation showed as free
     -- can be taken; a name clash leaves every observable field as it was
     let fails := match which, op with
